@@ -31,7 +31,7 @@ func runC07(c *caseWriter) (string, bool, map[string]int) {
 			emit(c, "parse_overlap", api, first)
 		}
 	}
-	return "clone_race: on 5 sets (one of 26 long members) x 3 x 240 fresh copies, Clone of the root races (spinning barrier, 0-3 yields on either side) with the first ExecuteTemplate of a member of the parent; a clone that is returned must execute every member exactly as a fresh set does. API histories over a pool of 61 definition texts (helpers shared between callers in different contexts, context-opening helpers, failing/recursive/undefined/empty callees, break/continue, predefined escapers): every pool set with every order and repetition of executing two of its members, clone / late-parse scenarios, and random histories of 4-12 ops (New, t.New, Parse, Clone, Lookup, Execute, ExecuteTemplate, Templates/DefinedTemplates/Name, CSPCompatible) weighted towards doing something after an execution; every exec op is also run on a fresh set with the same definitions and on the projection of the history to its own name space; non-trivial = the history executes a template", false, nil
+	return "clone_race: on 5 sets (one of 26 long members) x 3 x 240 fresh copies, Clone of the root races (spinning barrier, 0-3 yields on either side) with the first ExecuteTemplate of a member of the parent; a clone that is returned must execute every member exactly as a fresh set does. API histories over a pool of definition texts (hist.go defPool) (helpers shared between callers in different contexts, context-opening helpers, failing/recursive/undefined/empty callees, break/continue, predefined escapers): every pool set with every order and repetition of executing two of its members, clone / late-parse scenarios, and random histories of 4-12 ops (New, t.New, Parse, Clone, Lookup, Execute, ExecuteTemplate, Templates/DefinedTemplates/Name, CSPCompatible) weighted towards doing something after an execution; every exec op is also run on a fresh set with the same definitions and on the projection of the history to its own name space; non-trivial = the history executes a template", false, nil
 }
 
 // ---------------------------------------------------------------- clone taken during a first execution
